@@ -143,7 +143,8 @@ fn literals(n: &Num, rng: &mut Rng) -> Vec<String> {
 pub fn gen_case(rng: &mut Rng, idx: usize, thorough: bool) -> Value {
     // idx 0..: deterministic families first, then random
     let w = if thorough { 130 } else { 40 };
-    match idx % 4 {
+    match idx % 5 {
+        4 => json!({"kind": "dec-near", "seed": rng.next() % 1_000_000_000, "n": if thorough { 400 } else { 120 }}),
         0 => json!({"kind": "int-grid", "lo": -(w as i64) + (idx as i64 / 4) * 7 % 20, "w": w}),
         1 => json!({"kind": "dec-random", "seed": rng.next() % 1_000_000_000, "n": if thorough { 200 } else { 60 }}),
         2 => json!({"kind": "int-random", "seed": rng.next() % 1_000_000_000, "n": if thorough { 300 } else { 100 }}),
@@ -326,6 +327,28 @@ pub fn run_case(_ctx: &Ctx, case: &Value, tag: usize, rep: &mut Report, mb: &mut
                 }
             }
             rep.sample(json!({"kind": "int-random"}));
+        }
+        "dec-near" => {
+            // both bounds from a small lattice, so that equal integer parts, integer-valued bounds,
+            // shared fraction prefixes and zero are all frequent
+            let ints: [i64; 12] = [-11, -10, -2, -1, 0, 1, 2, 9, 10, 11, 99, 100];
+            let fr = ["", "", ".05", ".1", ".15", ".2", ".25", ".3", ".35", ".5", ".59", ".7", ".75", ".9", ".99", ".125", ".001", ".309"];
+            let mut rng = Rng::new(case["seed"].as_u64().unwrap());
+            let mut pick = |rng: &mut Rng, near: Option<i64>| -> String {
+                let i = match near { Some(v) if rng.chance(2, 3) => v, _ => ints[rng.below(ints.len())] };
+                let f = fr[rng.below(fr.len())];
+                if i < 0 || (i == 0 && rng.chance(1, 4) && !f.is_empty()) { format!("-{}{}", -i, f) } else { format!("{i}{f}") }
+            };
+            for _ in 0..case["n"].as_u64().unwrap() {
+                let a = pick(&mut rng, None);
+                let ai = D::parse(&a).unwrap();
+                let near = ai.mant / 10i128.pow(ai.scale);
+                let b = pick(&mut rng, Some(near as i64));
+                let (a, b) = if D::parse(&a).unwrap().cmp(&D::parse(&b).unwrap()) == std::cmp::Ordering::Greater { (b, a) } else { (a, b) };
+                let n = Num { integer: rng.chance(1, 8), min: if rng.chance(7, 8) { Some((a, rng.chance(1, 2))) } else { None }, max: if rng.chance(7, 8) { Some((b, rng.chance(1, 2))) } else { None }, mult: None };
+                check_num(&w, &n, &mut rng, rep, case);
+            }
+            rep.sample(json!({"kind": "dec-near"}));
         }
         "dec-random" => {
             let mut rng = Rng::new(case["seed"].as_u64().unwrap());
